@@ -377,13 +377,26 @@ var kinds = []*kind{
 		},
 	},
 	{
-		// variant = number of contributions (0, 1, 2, 3).
-		Name: "SyncContributions", Duty: core.DutySyncContribution, Variants: 4,
+		// variant = number of contributions (0, 1, 2, 3); variants 4 and 5: 2 / 3 contributions of ONE
+		// slot and subcommittee that differ in the block root (distinct data: the duty store keys them
+		// by slot, subcommittee and root), in variant 5 the last one an exact duplicate of the first.
+		Name: "SyncContributions", Duty: core.DutySyncContribution, Variants: 6,
 		New: func(g *gen, _ eth2spec.DataVersion, _ bool, variant int) any {
-			s := make(core.SyncContributions, 0, variant)
-			for i := 0; i < variant; i++ {
+			n := variant
+			if variant >= 4 {
+				n = variant - 2
+			}
+			s := make(core.SyncContributions, 0, n)
+			for i := 0; i < n; i++ {
 				var c altair.SyncCommitteeContribution
 				g.fill(&c)
+				if variant >= 4 && i > 0 {
+					c.Slot, c.SubcommitteeIndex = s[0].Slot, s[0].SubcommitteeIndex
+					if variant == 5 && i == n-1 {
+						c = s[0].SyncCommitteeContribution
+						c.AggregationBits = append([]byte(nil), c.AggregationBits...)
+					}
+				}
 				s = append(s, core.SyncContribution{SyncCommitteeContribution: c})
 			}
 
